@@ -38,6 +38,11 @@ fn verif_range_find_mut<'a, T, F: FnMut(&&'a mut T) -> bool>(v: &'a mut Vec<T>, 
     v[range].iter_mut().find(f)
 }
 
+/// the predicate `get` uses to select entries: the key, borrowed as Q, equals `key`
+spec fn key_matches<K: std::borrow::Borrow<Q>, Q: PartialEq + ?Sized>(key: &Q) -> spec_fn(K) -> bool {
+    |k: K| <Q as PartialEqSpec<Q>>::eq_spec(borrow_spec::<K, Q>(&k), key)
+}
+
 /// value of the innermost (= last) binding whose key satisfies p
 spec fn lookup_by<K, V>(s: Seq<(K, V)>, p: spec_fn(K) -> bool) -> Option<V>
     decreases s.len()
